@@ -160,7 +160,7 @@ PROPS = {
         lean_targets=["BB.Props.C14"],
         theorems=["BB.Props.C14.inv_step", "BB.Props.C14.bounded", "BB.Props.C14.exactly_once", "BB.Props.C14.queue_has_worker",
                   "BB.Props.C14.finish_own_job", "BB.Props.C14.wait_sound", "BB.Props.C14.queued_not_stuck"],
-        corr=[dict(family="workers", quick=60, thorough=3000, mismatch_is_violation=True, no_shrink=True,
+        corr=[dict(family="workers", quick=100, thorough=3000, mismatch_is_violation=True, no_shrink=True,
                    nontrivial=has("target_shrinks_queue_nonempty", "exit_with_queue", "parallel_jobs"),
                    rule="workers: 2-6 free-running callers x 3-8 calls with mixed/decreasing counts and PRNG-perturbed job functions on one real Workers; "
                         "events emitted by verif hook points inside the critical sections of Workers.mutex (call/take/exit/wait, with the count and queue length "
